@@ -119,10 +119,14 @@ var framePools = func() [FrameContinuation + 1]*sync.Pool {
 func AcquireFrame(ftype FrameType) Frame {
 	fr := framePools[ftype].Get().(Frame)
 	fr.Reset()
+	verifPool("frame", fr, true)
 
 	return fr
 }
 
 func ReleaseFrame(fr Frame) {
+	if verifPool("frame", fr, false) {
+		return
+	}
 	framePools[fr.Type()].Put(fr)
 }
